@@ -23,7 +23,7 @@ KINDS = ["basic", "hook", "ctl"]
 BEHS = ["sleep", "ignore", "fork", "exit0", "exit3", "crash", "noready", "stuck", "done0", "done3", "donesig", "nodone", "fmq",
         "midstate", "resetstuck"]
 REQS = ["CONFIGURE", "START", "STOP", "Trigger", "Kill"]
-INSTS = ["launching", "nochild", "starting", "polling", "running", "exiting", "reaped"]
+INSTS = ["launching", "nochild", "starting", "polling", "running", "exiting", "reaped", "gone"]
 NTHS = [1, 2, 3]   # first / repeated back to back / repeated after a terminal status had been reported
 INVS = ["OneTerminal", "KilledNotFailed", "NoSurvivors", "ExecutorSurvives"]
 IMPL = {"basic": "basicTaskBase", "hook": "basicTaskBase", "ctl": "ControllableTask"}
@@ -115,8 +115,8 @@ def scn_from_gen(sid, rec):
     cls = "%s/%s/%s%s" % (rec["kind"], rec["beh"], "+".join("%s@%s%s" % (r, w, "" if a == "calm" else ":" + a)
                                                            for (r, w, a) in plan) or "-",
                           ("/deep" if rec["deep"] else "") + ("/hold" if rec["hold"] and rec["kind"] != "ctl" else "")
-                          + ("/user" if rec.get("usr") else ""))
-    return {"id": sid, "kind": rec["kind"], "beh": rec["beh"], "hold": bool(rec["hold"]), "user": bool(rec.get("usr")),
+                          + ("/user" if rec.get("usr") else "") + ("/down" if rec.get("down") else ""))
+    return {"id": sid, "kind": rec["kind"], "beh": rec["beh"], "hold": bool(rec["hold"]), "user": bool(rec.get("usr")), "down": bool(rec.get("down")),
             "steps": steps, "cls": cls,
             "plan": plan, "predicted": [list(b) for b in bad], "origin": "generated"}
 
@@ -191,7 +191,7 @@ def _run(ctx, replay_scn):
         replay_only.update({"plan": [], "predicted": [], "origin": "replay"})
 
     # 1. exhaustive model checking, per task kind; violations outside the classes of open findings are new
-    invs = ["TypeOK", "OneTerminalX", "KilledNotFailedX", "NoSurvivorsX", "ExecutorSurvivesX"]
+    invs = ["TypeOK", "OneTerminalX", "KilledNotFailedX", "NoSurvivorsX", "ExecutorSurvivesX", "GoneIsGone"]
     # for the shell-script kinds "ignore" behaves like "sleep" (only SIGKILL is ever sent) and exit0 like exit3
     b4 = ["sleep", "fork", "exit3", "crash"]
     if quick:
@@ -275,7 +275,7 @@ def _run(ctx, replay_scn):
     binp = ctx.build("exectask")
     scn_file = ctx.path("scenarios.ndjson")
     trace_file = ctx.path("trace.ndjson")
-    ctx.write_ndjson(scn_file, [dict({k: s[k] for k in ("id", "kind", "beh", "hold", "steps", "cls")}, user=bool(s.get("user")))
+    ctx.write_ndjson(scn_file, [dict({k: s[k] for k in ("id", "kind", "beh", "hold", "steps", "cls")}, user=bool(s.get("user")), down=bool(s.get("down")))
                                 for s in scenarios])
     par = 12 if vlib.NCPU >= 12 else max(4, vlib.NCPU)
     out = ctx.run([binp, "-scenarios", scn_file, "-trace", trace_file, "-work", ctx.path("scn"), "-par", str(par)],
@@ -319,7 +319,7 @@ def _run(ctx, replay_scn):
             continue
         seen.add(key)
         sig.update({"scn": scn, "line": line, "cls": s.get("cls"), "origin": s.get("origin")})
-        ctx.add_violation(sig, replay_obj={"scenario": {k: s.get(k) for k in ("id", "kind", "beh", "hold", "user", "steps", "cls")},
+        ctx.add_violation(sig, replay_obj={"scenario": {k: s.get(k) for k in ("id", "kind", "beh", "hold", "user", "down", "steps", "cls")},
                                            "trace": trace_of(scn)})
     # a violation predicted by the exhaustive model outside the known classes must reproduce on the real code
     for (scn, inv) in predicted_new:
